@@ -432,3 +432,54 @@ func VerifC20WorkflowDeferred() {
 	vassert(err1 != nil, "ill-formed workflow (missing entry/exit edge, duplicate mapping target) is rejected at Compile")
 	vassert(err2 != nil, "the same ill-formed workflow is rejected on every Compile attempt")
 }
+
+// The verdict on a graph does not depend on the order in which its (valid) edges are declared: a chain through two
+// pass-through nodes whose ends have mismatching types is rejected for every edge order, a matching one accepted.
+func VerifC20EdgeOrder() {
+	ctx := context.Background()
+	vcfg("fifo", 1)
+	mismatch := vchoose("mismatch", 2) == 1
+	g := NewGraph[map[string]any, map[string]any]()
+	_ = g.AddLambdaNode("a", vNode("a", nil))
+	_ = g.AddPassthroughNode("p")
+	_ = g.AddPassthroughNode("q")
+	if mismatch {
+		_ = g.AddLambdaNode("b", InvokableLambda(func(ctx context.Context, in int) (map[string]any, error) {
+			return map[string]any{"b": in}, nil
+		}))
+	} else {
+		_ = g.AddLambdaNode("b", vNode("b", nil))
+	}
+	edges := [][2]string{{START, "a"}, {"a", "p"}, {"p", "q"}, {"q", "b"}, {"b", END}}
+	used := make([]bool, len(edges))
+	var firstErr error
+	order := ""
+	for k := 0; k < len(edges); k++ {
+		// the k-th declared edge is the c-th still undeclared one
+		c := vchoose("edge", len(edges)-k)
+		idx := -1
+		for i := range edges {
+			if !used[i] {
+				if c == 0 {
+					idx = i
+					break
+				}
+				c--
+			}
+		}
+		used[idx] = true
+		order += edges[idx][0] + ">" + edges[idx][1] + " "
+		if err := g.AddEdge(edges[idx][0], edges[idx][1]); err != nil && firstErr == nil {
+			firstErr = err
+		}
+	}
+	r, cerr := g.Compile(ctx)
+	if mismatch {
+		vassert(firstErr != nil || cerr != nil, "a type mismatch across two pass-through nodes is rejected whatever the order of the AddEdge calls: "+order)
+		return
+	}
+	vassert(firstErr == nil && cerr == nil, "a well-typed chain through two pass-through nodes is accepted whatever the order of the AddEdge calls: "+order)
+	x := vsymInt("x")
+	_, err := r.Invoke(ctx, map[string]any{"in": x})
+	vassert(err == nil, "and runs")
+}
